@@ -30,3 +30,10 @@ def run(ctx):
     ctx.run_rule("D2x", r_xof.rule_D2x, allc)
     import r_asm
     ctx.run_rule("A9", lambda c: r_asm.rule_A9(c, only="xof_many"))
+    import r_round
+    import r_cbudget
+    # the C/intrinsics XOF path (prefer_intrinsics builds call blake3_xof_many_avx512 of c/blake3_avx512.c)
+    ctx.run_rule("STc", r_round.rule_ST_c)
+    ctx.run_rule("K4c", r_round.rule_K4_c)
+    ctx.run_rule("K5c", r_round.rule_K5_c)
+    ctx.run_rule("PB", r_cbudget.rule_PB)
